@@ -35,7 +35,7 @@ pub enum Resume {
 #[derive(Clone, Copy, Debug)]
 enum Yield {
     /// About to perform `op` on shim object `obj`.
-    Point(Op, u64),
+    Point(Op, #[allow(dead_code)] u64),
     /// Explicit pause between two operations of a script: switching here is free.
     Boundary,
     /// Explicit harness point inside an operation (costs a preemption to leave).
@@ -305,6 +305,35 @@ pub fn actor_panicked(i: usize) -> Option<String> {
 
 pub fn actor_finished(i: usize) -> bool {
     with_st(|st| st.actors[i].state == AState::Finished)
+}
+
+#[derive(Clone, Copy, Debug, PartialEq, Eq, Hash)]
+pub enum ActorStatus {
+    Ready,
+    Boundary,
+    Blocked,
+    ParkedIdle,
+    ParkedWoken,
+    Finished,
+}
+
+pub fn actor_status(i: usize) -> ActorStatus {
+    with_st(|st| {
+        let a = &st.actors[i];
+        match a.state {
+            AState::Ready => ActorStatus::Ready,
+            AState::AtBoundary => ActorStatus::Boundary,
+            AState::Blocked(_) => ActorStatus::Blocked,
+            AState::Parked { .. } => {
+                if a.wake.0.load(Ordering::SeqCst) {
+                    ActorStatus::ParkedWoken
+                } else {
+                    ActorStatus::ParkedIdle
+                }
+            }
+            AState::Finished => ActorStatus::Finished,
+        }
+    })
 }
 
 pub fn winding_down() -> bool {
